@@ -4,12 +4,13 @@
   pass   insert a `pass` statement at the head of every unpinned function body
   kwarg  positional arguments bound to defaulted parameters of a resolved
          repository function are passed by keyword instead
+  cmp    operands of == / != comparisons exchanged (x == K -> K == x)
   swap   swap adjacent independent plain assignments (no calls, subscripts or
          attributes on either side, neither reads the other's target)
 
 Each makes a copy of the package under a temporary directory outside /repo and
 /verif, runs every claimed check on it and reports the checks that fire.  Not
-part of any registered check.   usage: benign_fuzz.py pass|swap|kwarg|kwargall [--only C01 ...]
+part of any registered check.   usage: benign_fuzz.py pass|swap|cmp|kwarg|kwargall [--only C01 ...]
 """
 import ast
 import json
@@ -76,6 +77,32 @@ def edit_swap(src):
     return "".join(lines), len(set(swaps))
 
 
+def edit_cmp(src):
+    """a == b / a != b with a plain name or constant on one side and anything on the other: operands exchanged
+    (only single-operator comparisons in unpinned functions, both operands on one line)"""
+    tree = ast.parse(src)
+    lines = src.splitlines(True)
+    edits = []
+    for fn in ast.walk(tree):
+        if not isinstance(fn, ast.FunctionDef) or pinned(fn):
+            continue
+        for c in ast.walk(fn):
+            if isinstance(c, ast.Compare) and len(c.ops) == 1 and isinstance(c.ops[0], (ast.Eq, ast.NotEq)) and c.lineno == c.end_lineno:
+                l, r = c.left, c.comparators[0]
+                if isinstance(r, (ast.Constant, ast.Name, ast.Attribute)) and isinstance(l, (ast.Name, ast.Attribute, ast.Subscript, ast.Constant)):
+                    edits.append((c.lineno, l.col_offset, l.end_col_offset, r.col_offset, r.end_col_offset))
+    n = 0
+    done = set()
+    for ln, l0, l1, r0, r1 in sorted(set(edits), reverse=True):
+        if ln in done:
+            continue  # one edit per line keeps offsets valid
+        done.add(ln)
+        b = lines[ln - 1].encode("utf-8")
+        lines[ln - 1] = (b[:l0] + b[r0:r1] + b[l1:r0] + b[l0:l1] + b[r1:]).decode("utf-8")
+        n += 1
+    return "".join(lines), n
+
+
 def make_edit_kwarg(all_args=False):
     """positional arguments bound to *defaulted* parameters of a resolved repository function become keyword arguments"""
     sys.path.insert(0, VERIF)
@@ -118,7 +145,7 @@ def make_edit_kwarg(all_args=False):
 def main():
     mode = sys.argv[1]
     only = sys.argv[sys.argv.index("--only") + 1:] if "--only" in sys.argv else None
-    edit = make_edit_kwarg(mode == "kwargall") if mode.startswith("kwarg") else dict(**{"pass": edit_pass, "swap": edit_swap})[mode]
+    edit = make_edit_kwarg(mode == "kwargall") if mode.startswith("kwarg") else dict(**{"pass": edit_pass, "swap": edit_swap, "cmp": edit_cmp})[mode]
     tmp = tempfile.mkdtemp(prefix="vcheck-%s-" % mode)
     try:
         shutil.copytree(os.path.join(REPO, "vc2_conformance"), os.path.join(tmp, "vc2_conformance"), ignore=shutil.ignore_patterns("__pycache__"))
